@@ -172,6 +172,14 @@ def apply_muts(doc, muts):
                 elif mode == "missing":
                     p.dependency = "no-such-property-☃"
                     p.dependency_value = "x"
+                    if m[1] % 2 == 0:
+                        # ... and the Property is then moved to another Section with insert(): it is judged where it is now
+                        other = [s_ for s_ in secs if s_ is not par and p.name not in [q.name for q in s_.properties]]
+                        if other:
+                            try:
+                                other[m[1] % len(other)].insert(0, p)
+                            except Exception:
+                                pass
                 elif mode == "subsection-name":
                     if not len(par.sections):
                         odml.Section("dep_sub", "t", parent=par, oid=oid())
